@@ -4,7 +4,10 @@
    hashes, extensions) in random scenarios (signer x embedded certificate x verifying
    issuer x key types), parses them with ParseResponse and records
 
-     {"t":template,"sc":scenario,"kt":[..],"accepted":b,"fields":{..}}
+     {"t":template,"sc":scenario,"kt":[..],"accepted":b,"fields":{..},
+      "label":algorithm the response is labelled with,"wellsigned":b}
+   (label / wellsigned are read off the DER with the standard library only: does the
+   signature verify under the signing key with the labelled algorithm)
 
    TLC evaluates the A layer (OCSP.tla): the verdict of the scenario and, where the
    response was accepted, the field map.  One REJECT line per forbidden observation. *)
@@ -14,13 +17,14 @@ Obs == ndJsonDeserialize("ocsp_obs.ndjson")
 
 OK(o) ==
   LET v == ScVerdict(o.sc)
-      w == Expected(o.t, SubjectOf(o.sc.responder), o.sc.embedded # "none") IN
+      w == Expected(o.t, SubjectOf(o.sc.responder), o.sc.embedded # "none", SignerType(o.sc, o.kt)) IN
   /\ v = "accept" => o.accepted
   /\ v = "reject" => ~o.accepted
   /\ o.accepted => o.fields = w
+  /\ o.wellsigned /\ o.label = SigAlgOf(o.t, SignerType(o.sc, o.kt))
 
 Judge(i) == OK(Obs[i]) \/ PrintT(<<"REJECT", i, ScVerdict(Obs[i].sc),
-                                  ToJson(Expected(Obs[i].t, SubjectOf(Obs[i].sc.responder), Obs[i].sc.embedded # "none"))>>)
+                                  ToJson(Expected(Obs[i].t, SubjectOf(Obs[i].sc.responder), Obs[i].sc.embedded # "none", SignerType(Obs[i].sc, Obs[i].kt)))>>)
 
 ASSUME \A i \in DOMAIN Obs : Judge(i)
 ASSUME PrintT(<<"JUDGED", Len(Obs)>>)
